@@ -191,3 +191,73 @@ def read_before_call(fn, field, call_block):
         if not cfg.dominates(fn, bi, call_block):
             return False
     return True
+
+
+def enum_arms(fn, facts, pred):
+    """(switch block, {variant name: target block}) of the `match` on a value whose provenance satisfies pred.
+    The matched type is read from the callee's signature (call results) or from the parameter's type."""
+    from analysis.prov import prov_of, strip
+    pv = prov_of(fn)
+    for bi, bb in enumerate(fn.blocks):
+        t = bb["t"]
+        if t["k"] != "switch":
+            continue
+        d = strip(pv.operand(t["d"], bi, len(bb["s"])))
+        if d[0] != "discr" or not pred(strip(d[1])):
+            continue
+        c = strip(d[1])
+        ty = None
+        if c[0] == "call":
+            callee = facts.fn(c[1])
+            ty = callee.sig["out"] if callee is not None else None
+        elif c[0] == "param":
+            i = fn.param_index(c[1])
+            ty = fn.locals[i]["t"] if i else None
+        if ty:
+            ty = ty.lstrip("&").replace("mut ", "").strip()
+        adt = facts.adts.get(ty) if ty else None
+        if not adt:
+            return None
+        names = {str(v): n for n, v in adt.get("discrs", [])}
+        arms = {names.get(str(v), str(v)): b for v, b in t["ts"]}
+        rest = [n for n in names.values() if n not in arms]
+        if len(rest) == 1:
+            arms[rest[0]] = t["o"]
+        return bi, arms
+    return None
+
+
+def arm_prov(fn, sw, target, ctx=None):
+    """Provenance restricted to one arm of the switch in block `sw`."""
+    from analysis.prov import Prov
+    from analysis import preach
+    cut = {(sw, x) for x in fn.succ()[sw] if x != target}
+    return Prov(fn, preach.EdgeFlow(fn, cut, preach.flow(fn, ctx) if ctx else None))
+
+
+class RuleProxy:
+    """Re-decide another module's rule instances under this property's own rule id."""
+
+    def __init__(self, run, rule):
+        self._r, self._rule = run, rule
+
+    def __getattr__(self, k):
+        return getattr(self._r, k)
+
+    def check(self, rule, *a, **kw):
+        return self._r.check(self._rule, *a, **kw)
+
+    def ok(self, rule, *a, **kw):
+        return self._r.ok(self._rule, *a, **kw)
+
+    def bad(self, rule, *a, **kw):
+        return self._r.bad(self._rule, *a, **kw)
+
+    def missing(self, rule, *a, **kw):
+        return self._r.missing(self._rule, *a, **kw)
+
+    def title(self, rule, text):
+        pass
+
+    def floor(self, rule, *a, **kw):
+        return self._r.floor(self._rule, *a, **kw)
